@@ -2,7 +2,7 @@
 //! preserved along chains of operations.
 use crate::api::{st, Op, Res};
 use crate::grid::{dd_grid, dedup};
-use crate::run::{Local, Recorder, Runner, Verdict};
+use crate::run::{api, Local, Recorder, Runner, Verdict};
 use crate::util::show_dd;
 use serde_json::json;
 use std::sync::Mutex;
@@ -102,6 +102,9 @@ pub fn replay(call: &str, _clause: &str, args: &[u64]) -> Verdict {
     if call == "const" {
         return judge_consts();
     }
+    if call == "numcast" {
+        return judge_cast([f64::from_bits(args[0]), f64::from_bits(args[1])]);
+    }
     if call == "try_from_tuple" || call == "try_from_array" {
         use core::convert::TryFrom;
         let (a, b) = (f64::from_bits(args[0]), f64::from_bits(args[1]));
@@ -116,36 +119,77 @@ pub fn replay(call: &str, _clause: &str, args: &[u64]) -> Verdict {
 }
 
 fn judge_from_int(ty: &str, w: u128) -> Verdict {
+    use num_traits::{FromPrimitive, NumCast};
     use st::TF;
-    let t: TF = match ty {
-        "i8" => TF::from(w as i8),
-        "u8" => TF::from(w as u8),
-        "i16" => TF::from(w as i16),
-        "u16" => TF::from(w as u16),
-        "i32" => TF::from(w as i32),
-        "u32" => TF::from(w as u32),
-        "i64" => TF::from(w as i64),
-        "u64" => TF::from(w as u64),
-        "i128" => TF::from(w as i128),
-        _ => TF::from(w),
+    // every route from an integer to a TwoFloat: From, FromPrimitive, NumCast
+    macro_rules! routes {
+        ($t:ty, $fp:ident) => {{
+            let n = w as $t;
+            [Some(<TF as From<$t>>::from(n)), <TF as FromPrimitive>::$fp(n), <TF as NumCast>::from(n)]
+        }};
+    }
+    let res = api(|| match ty {
+        "i8" => routes!(i8, from_i8),
+        "u8" => routes!(u8, from_u8),
+        "i16" => routes!(i16, from_i16),
+        "u16" => routes!(u16, from_u16),
+        "i32" => routes!(i32, from_i32),
+        "u32" => routes!(u32, from_u32),
+        "i64" => routes!(i64, from_i64),
+        "u64" => routes!(u64, from_u64),
+        "i128" => routes!(i128, from_i128),
+        _ => routes!(u128, from_u128),
+    });
+    let name: &'static str = match ty {
+        "i8" => "from_i8",
+        "u8" => "from_u8",
+        "i16" => "from_i16",
+        "u16" => "from_u16",
+        "i32" => "from_i32",
+        "u32" => "from_u32",
+        "i64" => "from_i64",
+        "u64" => "from_u64",
+        "i128" => "from_i128",
+        _ => "from_u128",
     };
-    let r = [t.hi(), t.lo()];
-    if ok_result(r) {
-        Verdict::Pass
-    } else {
-        let name: &'static str = match ty {
-            "i8" => "from_i8",
-            "u8" => "from_u8",
-            "i16" => "from_i16",
-            "u16" => "from_u16",
-            "i32" => "from_i32",
-            "u32" => "from_u32",
-            "i64" => "from_i64",
-            "u64" => "from_u64",
-            "i128" => "from_i128",
-            _ => "from_u128",
-        };
-        Verdict::fail("normalised_or_nonfinite_hi", name, &[w as u64, (w >> 64) as u64], show_dd(r), "is_valid()".into(), "overlapping_words")
+    let args = [w as u64, (w >> 64) as u64];
+    match res {
+        Err(m) => Verdict::fail("no_panic", name, &args, format!("panic: {}", m), "a value".into(), "panic"),
+        Ok(rs) => {
+            for (route, t) in ["TwoFloat::from", "FromPrimitive", "NumCast::from"].iter().zip(rs.iter()) {
+                if let Some(t) = t {
+                    let r = [t.hi(), t.lo()];
+                    if !ok_result(r) {
+                        return Verdict::fail("normalised_or_nonfinite_hi", name, &args, format!("{}: {}", route, show_dd(r)), "is_valid()".into(), "overlapping_words");
+                    }
+                }
+            }
+            Verdict::Pass
+        }
+    }
+}
+
+/// float / TwoFloat sources through the num_traits conversion routes (NumCast from a TwoFloat, an f64 or an f32;
+/// FromPrimitive::from_f64 / from_f32; From<f32>): whatever they return must be normalised
+fn judge_cast(x: [f64; 2]) -> Verdict {
+    use num_traits::{FromPrimitive, NumCast};
+    use st::TF;
+    let args = [x[0].to_bits(), x[1].to_bits()];
+    let t = st::mk(x);
+    let res = api(|| [<TF as NumCast>::from(t), <TF as NumCast>::from(x[0]), <TF as NumCast>::from(x[0] as f32), <TF as FromPrimitive>::from_f64(x[0]), <TF as FromPrimitive>::from_f32(x[0] as f32), Some(<TF as From<f32>>::from(x[0] as f32))]);
+    match res {
+        Err(m) => Verdict::fail("no_panic", "numcast", &args, format!("panic: {}", m), "a value".into(), "panic"),
+        Ok(rs) => {
+            for (route, t) in ["NumCast::from(TwoFloat)", "NumCast::from(f64)", "NumCast::from(f32)", "FromPrimitive::from_f64", "FromPrimitive::from_f32", "From<f32>"].iter().zip(rs.iter()) {
+                if let Some(t) = t {
+                    let r = [t.hi(), t.lo()];
+                    if !ok_result(r) {
+                        return Verdict::fail("normalised_or_nonfinite_hi", "numcast", &args, format!("{}: {}", route, show_dd(r)), "is_valid()".into(), "overlapping_words");
+                    }
+                }
+            }
+            Verdict::Pass
+        }
     }
 }
 
@@ -309,6 +353,7 @@ pub fn run(r: &mut Runner) {
                     }
                     rec.record(l, (i * 64 + k) as u64, v);
                 }
+                rec.record(l, (i * 64 + 63) as u64, judge_cast(xs[i]));
                 // powi with a spread of exponents
                 for (k, n) in [-1000i32, -64, -3, -2, 0, 1, 2, 3, 17, 64, 1000, i32::MAX, i32::MIN + 1].iter().enumerate() {
                     let (v, _) = judge(Op::powi, xs[i], [*n as f64, 0.0]);
@@ -448,11 +493,33 @@ pub fn run(r: &mut Runner) {
                     }
                 }
             }
+            v.extend(crate::props::c09::ints128(if quick { 3 } else { 4 }));
             v.sort();
             v.dedup();
             v
         };
         let n = ints.len();
+        // integer-valued double-doubles at and above 2^53 with fractional / tie low words (sources of NumCast::from(TwoFloat))
+        let mut tfs: Vec<[f64; 2]> = vec![];
+        for j in 52..=126 {
+            for m in [0.0, 1.0, 2.0, 3.0] {
+                let h = 2f64.powi(j) + m * 2f64.powi(j - 52);
+                for lo in [0.25, -0.25, 0.5, -0.5, 0.75, -0.75, 1.0, -1.0, 1.5, -1.5, 2f64.powi(j - 53), -2f64.powi(j - 53), 2f64.powi(j - 53) - 0.5, 0.5 - 2f64.powi(j - 53), 2f64.powi(j - 54) * 1.5, -2f64.powi(j - 54) * 1.5] {
+                    for s in [1.0, -1.0] {
+                        if tfref::big::dd_valid_fast(s * h, s * lo) {
+                            tfs.push([s * h, s * lo]);
+                        }
+                    }
+                }
+            }
+        }
+        let ntf = tfs.len();
+        r.notes.push(format!("num_traits conversion routes: {} integers x 10 types x (From, FromPrimitive, NumCast); NumCast/FromPrimitive from TwoFloat/f64/f32 on every depth-1 unary operand and on {} integer-valued double-doubles >= 2^52 with fractional and tie low words", n, ntf));
+        r.par("depth 1: NumCast from integer-valued TwoFloat", 1, ntf as u64, |_, l| {
+            for (i, x) in tfs.iter().enumerate() {
+                rec.record(l, (1 << 49) + i as u64, judge_cast(*x));
+            }
+        });
         r.par("depth 1: From<integer> (10 types)", n.div_ceil(1024), n as u64, |c, l| {
             for i in (c * 1024)..((c + 1) * 1024).min(n) {
                 for (k, ty) in ["i8", "u8", "i16", "u16", "i32", "u32", "i64", "u64", "i128", "u128"].iter().enumerate() {
